@@ -2,7 +2,7 @@
 // because Go generics cannot be instantiated at run time).  Deterministic: a fixed PRNG seed,
 // no time, no map iteration.  Run from /verif:
 //
-//	go run ./c18/gen        (writes c18/ex0..ex7/exprs_gen.go and c18/tables_gen.go)
+//	go run ./c18/gen        (writes c18/ex0..ex11/exprs_gen.go and c18/tables_gen.go)
 //
 // Expression grammar (combinator nesting depth ≤ 5, Given = depth 0):
 //
@@ -10,6 +10,14 @@
 //	    | Tuple2..21(E,…) | HCons(E, HCons(…, HNil)) | Generic(Box|Pair|Rec3, repr E)
 //	V ::= int | string | bool | float64 | uint8 | Point | [3]int | fp.Unit
 //	K ::= Given[int] | Given[string] | Given[Point] | Tuple2(Given[int], Given[string])
+//	    | KM                       (key instances that must deep-copy: the key type holds storage)
+//	KM ::= Ptr(Given[int|string|Point]) | Ptr(Ptr(Given[int])) | Ptr(Tuple2(Given[int], Ptr(Given[int])))
+//	    | Tuple2(Given[string], Ptr(..)) | Tuple2(Ptr(..), Given[int]) | Tuple3(Ptr, Given, Ptr)
+//	    | Option(Ptr(..)) | Tuple2(Given[int], Option(Ptr(..))) | Option(Tuple2(Given[string], Ptr(..)))
+//	    | Generic(Pair[string,*int]) (struct key) | Generic(Box[*int]) | Generic(Arr2[*int]) (array key)
+//	    | HCons(Ptr(..), HNil) | HCons(Given[string], HCons(Ptr(..), HNil))
+//
+// plus Generic(Dict[K,V], repr GoMap(K, E)) (named map type) and Generic(Arr2[T], repr Tuple2(E, E)).
 package main
 
 import (
@@ -126,9 +134,54 @@ func genericBag(x *node) *node {
 		expr: fmt.Sprintf("clone.Generic[tbl.Bag[%s], %s](tbl.BagGeneric[%s](), %s)", x.typ, r.typ, x.typ, r.expr)}
 }
 
+func genericDict(k, x *node) *node {
+	r := gomap(k, x)
+	return &node{kind: "Generic", label: "Generic:Dict", typ: "tbl.Dict[" + k.typ + ", " + x.typ + "]", kids: []*node{r}, depth: r.depth + 1,
+		expr: fmt.Sprintf("clone.Generic[tbl.Dict[%s, %s], %s](tbl.DictGeneric[%s, %s](), %s)", k.typ, x.typ, r.typ, k.typ, x.typ, r.expr)}
+}
+
+func genericArr2(x *node) *node {
+	r := tuple(x, x)
+	return &node{kind: "Generic", label: "Generic:Arr2", typ: "tbl.Arr2[" + x.typ + "]", kids: []*node{r}, depth: r.depth + 1,
+		expr: fmt.Sprintf("clone.Generic[tbl.Arr2[%s], %s](tbl.Arr2Generic[%s](), %s)", x.typ, r.typ, x.typ, r.expr)}
+}
+
+// mutableKeys: key instances whose key type holds mutable storage (comparable types that are
+// or contain pointers), so that clone.GoMap's KEY instance has to deep-copy: pointer keys,
+// pointer-to-struct keys, pointers nested in tuple / option / hlist keys, struct and array keys
+// (through Generic), pointer to pointer, pointer to a struct that holds a pointer.
+var mutableKeys = []func() *node{
+	func() *node { return ptr(given("int")) },
+	func() *node { return tuple(given("string"), ptr(given("int"))) },
+	func() *node { return ptr(given("tbl.Point")) },
+	func() *node { return option(ptr(given("int"))) },
+	func() *node { return genericPair(given("string"), ptr(given("int"))) },
+	func() *node { return genericArr2(ptr(given("int"))) },
+	func() *node { return ptr(given("string")) },
+	func() *node { return tuple(ptr(given("int")), given("int")) },
+	func() *node { return hlistOf(ptr(given("int"))) },
+	func() *node { return ptr(ptr(given("int"))) },
+	func() *node { return tuple(given("int"), option(ptr(given("string")))) },
+	func() *node { return genericBox(ptr(given("int"))) },
+	func() *node { return hlistOf(given("string"), ptr(given("int"))) },
+	func() *node { return ptr(tuple(given("int"), ptr(given("int")))) },
+	func() *node { return tuple(ptr(given("int")), given("string"), ptr(given("string"))) },
+	func() *node { return option(tuple(given("string"), ptr(given("int")))) },
+}
+
 var valueTypes = []string{"int", "string", "bool", "float64", "uint8", "tbl.Point", "[3]int", "fp.Unit"}
 
-func keyInst(r *rand.Rand) *node {
+// keyInst: a key instance for a map that may use combinator depth d in total (the map itself
+// counts one); about a third of the maps get a key instance that has to deep-copy.
+func keyInst(r *rand.Rand, d int) *node {
+	if r.IntN(3) == 0 {
+		for tries := 0; tries < 8; tries++ {
+			k := mutableKeys[r.IntN(len(mutableKeys))]()
+			if k.depth <= d-1 {
+				return k
+			}
+		}
+	}
 	switch r.IntN(6) {
 	case 0, 1:
 		return given("int")
@@ -172,7 +225,7 @@ func random(r *rand.Rand, d int) *node {
 	case c < 44:
 		return seq(sub())
 	case c < 58:
-		return gomap(keyInst(r), sub())
+		return gomap(keyInst(r, d), sub())
 	case c < 68:
 		return option(sub())
 	case c < 80:
@@ -228,7 +281,15 @@ func shallow2(r *rand.Rand, d int) *node {
 // the mutable component types cycled through tuple / hlist positions so that every position
 // holds something that must be deep-copied
 func mutableComp(i int) *node {
-	switch i % 8 {
+	switch i % 12 {
+	case 8:
+		return gomap(ptr(given("int")), given("int")) // storage only behind the keys
+	case 9:
+		return genericBox(ptr(given("int")))
+	case 10:
+		return hlistOf(ptr(given("int")))
+	case 11:
+		return gomap(tuple(given("string"), ptr(given("int"))), slice(given("int")))
 	case 0:
 		return ptr(given("int"))
 	case 1:
@@ -383,8 +444,60 @@ func main() {
 	add(slice(hnil()))
 	add(ptr(given("fp.Unit")))
 	add(gomap(tuple(given("int"), given("string")), ptr(given("int"))))
-	// 7. random expressions, depth budget 2..5
-	target := 620
+	// 7. component positions that the sections above never fill with a component that needs a
+	// deep copy: Generic:Pair field A, Generic:Rec3 fields B and C, every field at once, an
+	// hlist head next to a mutable tail, Option / Seq / Slice directly over maps
+	mp, ms := func() *node { return ptr(given("int")) }, func() *node { return slice(given("string")) }
+	add(genericPair(mp(), given("int")))
+	add(genericPair(mp(), ms()))
+	add(genericRec3(given("int"), mp(), given("string")))
+	add(genericRec3(given("int"), given("string"), ms()))
+	add(genericRec3(mp(), ms(), gomap(given("string"), mp())))
+	add(genericArr2(mp()))
+	add(genericArr2(ms()))
+	add(genericArr2(given("int")))
+	add(ptr(genericArr2(slice(mp()))))
+	add(hcons(mp(), hcons(ms(), hnil())))
+	add(hcons(gomap(given("int"), mp()), hlistOf(given("int"), seq(mp()))))
+	add(genericDict(given("string"), given("int")))
+	add(genericDict(given("string"), mp()))
+	add(genericDict(given("int"), ms()))
+	add(ptr(genericDict(given("string"), slice(mp()))))
+	add(genericBox(genericBox(mp())))
+	add(genericBag(genericBag(given("int"))))
+	add(genericBag(gomap(given("string"), mp())))
+	add(option(genericPair(ms(), mp())))
+	add(seq(genericRec3(mp(), given("int"), ms())))
+
+	// 8. KEY instances that must deep-copy (the key type holds storage), at several depths
+	for ki, mk := range mutableKeys {
+		k := mk
+		add(gomap(k(), given("int")))
+		add(gomap(k(), slice(given("int"))))
+		add(gomap(k(), ptr(given("string"))))
+		add(genericDict(k(), given("int")))
+		// the map as a map value, keys needing a deep copy on both levels / on the inner level only
+		add(gomap(k(), gomap(mutableKeys[(ki+1)%len(mutableKeys)](), given("int"))))
+		add(gomap(given("string"), gomap(k(), ptr(given("int")))))
+		if ki < 8 {
+			// below every other combinator
+			for _, p := range unary {
+				add(p(gomap(k(), given("int"))))
+			}
+			add(genericDict(k(), slice(ptr(given("int")))))
+		}
+		// depth 3..5 spines ending in / passing through such a map
+		add(ptr(slice(gomap(k(), option(ptr(given("int")))))))
+		add(slice(ptr(seq(gomap(k(), given("int"))))))
+		add(option(ptr(gomap(k(), slice(given("int"))))))
+		add(gomap(given("int"), gomap(given("string"), gomap(k(), given("int")))))
+		add(seq(option(ptr(slice(gomap(k(), given("string")))))))
+		add(tuple(given("int"), gomap(k(), ptr(given("int"))), slice(gomap(k(), given("string")))))
+		add(hlistOf(gomap(k(), given("int")), ptr(gomap(k(), given("bool")))))
+	}
+
+	// 9. random expressions, depth budget 2..5
+	target := 900
 	for tries := 0; len(all) < target && tries < 100000; tries++ {
 		d := 3 + r.IntN(3)
 		n := random(r, d)
@@ -397,7 +510,7 @@ func main() {
 	emit(all)
 }
 
-const packages = 8
+const packages = 12
 
 func emit(all []*node) {
 	dir := "c18"
@@ -462,6 +575,10 @@ func emit(all []*node) {
 		fmt.Fprintf(&b, "\t_ \"verif/c18/ex%d\"\n", p)
 	}
 	b.WriteString(")\n")
-	os.WriteFile(dir+"/tables_gen.go", []byte(b.String()), 0o644)
+	tsrc, err := format.Source([]byte(b.String()))
+	if err != nil {
+		tsrc = []byte(b.String())
+	}
+	os.WriteFile(dir+"/tables_gen.go", tsrc, 0o644)
 	fmt.Fprintf(os.Stderr, "c18/gen: %d expressions in %d packages (sizes %v)\n", total, packages, load)
 }
